@@ -666,6 +666,10 @@ func famFsReq(o *Out, r *RNG, thorough bool) {
 			case k < 5:
 				rq.method = "PUT"
 				rq.body = r.Pick([]string{"", "x", "hello world"})
+				if r.Chance(4) {
+					// larger than any buffer a copy loop is likely to use in one go
+					rq.body = strings.Repeat("0123456789abcdef", 5000)
+				}
 				if r.Chance(10) {
 					rq.fault = r.Intn(3)
 				}
